@@ -395,6 +395,21 @@ def prologue (c : Consts) (env : Env) (σ : PollState) : ProRes :=
     let r2 := readAll env (allEntries 0 r1.σ.mods) r1.σ r1.evs
     if r2.aborted then ⟨waitEvent env r2.σ c.startupWait, r2.evs, true⟩ else r2
 
+/-! ## the state the thread starts in -/
+
+/-- `PollInfo.__init__(pollinterval, trigger_event)` for a module of the thread's list: `interval = pollinterval`,
+`last_main = last_slow = 0`, `fast_flag = False` (a module with `enablePoll = False` gets no `PollInfo`; its fields
+are never looked at) -/
+def startMod (enabled : Bool) (slow : Nat) (polled : List Nat) (pollinterval : Nat) : Mod :=
+  { enabled := enabled, slow := slow, polled := polled, pollinterval := pollinterval, interval := pollinterval,
+    fast := false, lastMain := 0, lastSlow := 0, lastStart := 0 }
+
+/-- the state in which the thread body begins: nothing read or called yet, the event clear, `to_poll = ()`;
+the ghost `refreshed` starts as the time stamps the parameters already carry -/
+def startState (clock : Nat) (mods : List Mod) (stamp : Nat → Nat → Nat) : PollState :=
+  { clock := clock, nRead := 0, nCall := 0, nWait := 0, trig := false, mods := mods, toPoll := none,
+    stamp := stamp, refreshed := stamp }
+
 /-- the whole thread body for `n` turns of the loop -/
 def thread (c : Consts) (env : Env) (n : Nat) (σ : PollState) : TurnRes :=
   let p := prologue c env σ
